@@ -42,7 +42,12 @@ Inductive case :=
    inside its pubsub call and another database was written many times: every payload is on
    the topic of the address it carries and carries heads of that database only (this is what
    the instance model publishes for any interleaving of announcers) *)
-| CPubs (published : list triple).
+| CPubs (published : list triple)
+(* a database created on an instance after a head-exchange message for ANOTHER, closed database
+   had arrived there: replication progress and maximum, number of entries, number of
+   load/replication events of the new database (every store of the instance model starts
+   untouched, whatever messages for other addresses the instance has seen) *)
+| CFresh (progress max : Z) (entries events : nat).
 
 Definition cop_target (op : cop) : nat :=
   match op with OWrite j _ _ | OSync j _ | OLoad j => j end.
@@ -134,6 +139,9 @@ Definition check (c : case) : bool * bool :=
     let ok := forallb (fun p : triple =>
                 Nat.eqb (fst (fst p)) (snd (fst p)) &&
                 forallb (fun e : tent => Nat.eqb (snd e) (fst (fst p))) (snd p)) pubs in
+    (ok, ok)
+  | CFresh progress max entries events =>
+    let ok := (progress =? 0)%Z && (max =? 0)%Z && Nat.eqb entries 0 && Nat.eqb events 0 in
     (ok, ok)
   end.
 
